@@ -8,7 +8,7 @@ import tempfile
 from . import dznbuild, engine, oracles, tapes, worldA
 from .rng import Rng, derive
 
-PREFIXES = [None, ['Other'], ['Other', 'Project'], ['a', 'B', 'c9']]
+PREFIXES = [None, ['Other'], ['Other', 'Project'], ['a', 'B', 'c9'], ['Other_Project'], ['a_B', 'c9']]
 
 
 def build_binary(prefix):
@@ -38,7 +38,7 @@ def build_binary(prefix):
 def gen_run(rng: Rng, rid):
     run = {'id': str(rid), 'seed': 1, 'policy': 0, 'p1': 0, 'p2': 0, 'stall_from': 0, 'stall_len': 0, 'budget': 50000, 'sched': None, 'tasks': []}
     for k in range(rng.between(2, 3)):
-        secs = [[rng.below(4), rng.between(1, 3), rng.between(0, 3)] for _ in range(rng.between(1, 5))]
+        secs = [[rng.below(6), rng.between(1, 3), rng.between(0, 3)] for _ in range(rng.between(1, 5))]
         run['tasks'].append({'name': f't{k}', 'sections': secs})
     tapes.random_sched(rng, run, 60)
     run['stall_len'] = 0
@@ -66,10 +66,11 @@ def judge(run, res):
     if not fin:
         return [oracles.Violation('mutexwrapped:no-final-record', '')]
     f = fin[0]
-    if int(f['max_occupancy']) > 1 or any(r['kind'] == 'occupancy' for r in res.records):
-        out.append(oracles.Violation('mutexwrapped:two-threads-inside', f"max occupancy {f['max_occupancy']}"))
-    if not (f['value'] == f['increments'] == f['writes']):
-        out.append(oracles.Violation('mutexwrapped:lost-update', f"value={f['value']} writes={f['writes']} increments={f['increments']}"))
+    if int(f['max_occupancy']) > 1 or int(f['max_occupancy2']) > 1 or any(r['kind'] in ('occupancy', 'occupancy2') for r in res.records):
+        out.append(oracles.Violation('mutexwrapped:two-threads-inside', f"max occupancy {f['max_occupancy']} / second instance {f['max_occupancy2']}"))
+    if not (f['value'] == f['increments'] == f['writes']) or not (f['value2'] == f['increments2'] == f['writes2']):
+        out.append(oracles.Violation('mutexwrapped:lost-update', f"value={f['value']} writes={f['writes']} increments={f['increments']} / "
+                                                                 f"second instance value={f['value2']} writes={f['writes2']} increments={f['increments2']}"))
     return out
 
 
